@@ -24,11 +24,16 @@
 //                                 root of a fresh trie filled with exactly these contents
 //
 // Alphabet (see c08Gen): main keys, child-trie names, child keys and prefixes are all drawn
-// from the same few byte strings over {0x11,0x12}, so that main keys, child names and
-// prefixes collide; values are tagged by the trie they go into so that two child tries never
-// have the same contents (the in-memory trie indexes child tries by root hash).
-// Prefixes never end in a zero low nibble and are never empty (pkg/trie prefix defect, C02;
+// from the same few byte strings (11, 1122, 112233, 112244, 22, 2255), so that main keys,
+// child names and prefixes collide, keys are prefixes of other keys and equal to cleared
+// prefixes; values are tagged by the trie they go into so that two child tries never have the
+// same contents (the in-memory trie indexes child tries by root hash).
+// The bytes differ in their high nibble only, so that the backing trie never has a branch at an
+// odd nibble position (pkg/trie findings get-exhausted-key / delete-exhausted-key, C02);
+// prefixes never end in a zero low nibble and are never empty (pkg/trie prefix defect, C02;
 // an empty prefix makes the in-transaction ClearPrefix loop forever, see fixes/C08-findings.txt).
+// With fixes/C02-{get,delete}-diverging-key and C02-keys-prefix-descent applied the in-memory
+// trie was checked to behave as an ordered map on every subset of this alphabet.
 package storage
 
 import (
@@ -43,13 +48,13 @@ import (
 	inmemory_trie "github.com/ChainSafe/gossamer/pkg/trie/inmemory"
 )
 
-var c08Keys = []string{"11", "12", "1111", "1112", "1211", "111111", "111211"}
-var c08Prefixes = []string{"11", "12", "1111", "1112", "13", "111111"}
-var c08Children = []string{"11", "12"}
+var c08Keys = []string{"11", "1122", "112233", "112244", "22", "2255"}
+var c08Prefixes = []string{"11", "1122", "22", "33", "112233", "1133"}
+var c08Children = []string{"11", "22"}
 
 func c08Pick(r *vu.RNG, l []string) string { return l[r.Intn(len(l))] }
 
-// values: main 01..03 or empty; child "11": a1..a3 or empty; child "12": b1..b3
+// values: main 01..03 or empty; child "11": a1..a3 or empty; child "22": b1..b3
 func c08Val(r *vu.RNG, where string) string {
 	switch where {
 	case "main":
